@@ -91,7 +91,7 @@ PROPS = {
 
 
 # properties whose theorems speak about model functions that stage 2 of the translator regenerates from the source
-GENLOOPS_PROPS = {'C01', 'C02', 'C03', 'C04', 'C06', 'C07', 'C08', 'C09', 'C10', 'C11', 'C13', 'C14'}
+GENLOOPS_PROPS = {'C01', 'C02', 'C03', 'C04', 'C05', 'C06', 'C07', 'C08', 'C09', 'C10', 'C11', 'C13', 'C14'}
 
 AUDIT_TEMPLATE = """IMPORTS
 open Lean Elab Command in
@@ -229,8 +229,8 @@ def build_and_audit(pid, tier, log):
         return res
     if uses_loops and not (rc2 != 0 or res['translator2'].get('error')):
         t0 = time.time()
-        rcg, outg = sh(['lake', 'build', 'SSJ.Proofs.GenLoops'], cwd=LEAN, timeout=1800)
-        log.append('lake build SSJ.Proofs.GenLoops rc=%d %.1fs' % (rcg, time.time() - t0))
+        rcg, outg = sh(['lake', 'build', 'SSJ.Proofs.GenLoops', 'SSJ.Proofs.GenLoops2'], cwd=LEAN, timeout=1800)
+        log.append('lake build SSJ.Proofs.GenLoops SSJ.Proofs.GenLoops2 rc=%d %.1fs' % (rcg, time.time() - t0))
         if rcg != 0:
             errs = [ln for ln in outg.splitlines() if 'error' in ln][:8]
             broken_build.append({'kind': 'genloops-proof', 'detail': 'generated loop code is no longer provably equal to the hand model: ' + ('\n'.join(errs) or outg[-800:])})
@@ -824,14 +824,14 @@ def main():
                 'trusted_base': ['Lean 4.33 kernel' + (' + leanchecker re-check' if tier == 'thorough' else ''),
                                  'axioms: propext, Classical.choice, Quot.sound only (audited per theorem this run)',
                                  'tools/py2lean.py + lean/SSJ/Py/{Val,F64}.lean (semantics of the translated subset; validated by suite gen/f64)',
-                                 'tools/py2lean2.py (loop helpers -> Gen/Loops.lean; idiom table of tools/translator_tests/NOTES.md; its output is proved equal to the hand model in Proofs/GenLoops.lean)',
+                                 'tools/py2lean2.py (36 loop functions -> Gen/Loops.lean, Gen/Loops2.lean; idiom table of tools/translator_tests/NOTES.md; its output is proved equal to the hand model in Proofs/GenLoops.lean, GenLoops2.lean)',
                                  'hand-written model lean/SSJ/Model/*.lean (validated by the correspondence suites of this run)',
                                  'pandas / joblib / py_stringmatching / CPython float semantics are modelled, not verified (DESIGN §8)'],
                 'theorems': b['theorems'], 'axioms': b['axioms'], 'build_cached': b['cached'],
                 'programs': len((b['translator'] or {}).get('functions', [])) + len(t2.get('functions', []) if pid in GENLOOPS_PROPS else []),
                 'translated_functions': (b['translator'] or {}).get('functions', []),
                 'translated_loop_functions': {'used_by_this_property': pid in GENLOOPS_PROPS, 'functions': t2.get('functions', []), 'error': t2.get('error'),
-                                              'equality_with_model': 'lean/SSJ/Proofs/GenLoops.lean (SSJ.Gen2.*_eq), rebuilt this run' if pid in GENLOOPS_PROPS else None},
+                                              'equality_with_model': 'lean/SSJ/Proofs/GenLoops.lean + GenLoops2.lean (SSJ.Gen2.*_eq: 36 functions), rebuilt this run' if pid in GENLOOPS_PROPS else None},
                 'evaluations': total + sum(p['cases'] for p in per_oracle.values()),
                 'distinct_nontrivial': distinct_nontrivial,
                 'rule': 'correspondence cases are generated from one PRNG (VERIF_SEED); distinct = distinct request JSON; non-trivial = the real code '
